@@ -132,6 +132,7 @@ type AbsTx struct {
 	Aauth string            `json:"aauth"`
 	Tag   string            `json:"tag"`
 	Slack int               `json:"slack"`
+	Big   string            `json:"big"` // "sf" / "sc": the first two siafund (siacoin) outputs are 2^63 SF (2^127 H) larger than stated
 }
 
 // UnmarshalJSON accepts both a contract record and the NULL placeholder.
